@@ -369,3 +369,250 @@ Proof.
     + intro; subst y. rewrite B in Lc. discriminate.
     + intro; subst y. congruence.
 Qed.
+
+(* ================================================================ part 2: the model state *)
+Definition LInv (s : st) : Prop := LV (thrs s) (length (tasks s)) (tvs s).
+
+(* summary of a result state: its thread list, its task views; the number of tasks is unchanged *)
+Definition eff (s s' : st) (l' : list thr) (f' : nat -> tview) : Prop :=
+  thrs s' = l' /\ length (tasks s') = length (tasks s) /\ forall x, tvs s' x = f' x.
+
+Lemma linv_eff s s' l' f' : eff s s' l' f' -> LV l' (length (tasks s)) f' -> LInv s'.
+Proof.
+  intros (A & B & C) I. unfold LInv. rewrite A, B.
+  apply lv_ext with (f := f'); [intros x; rewrite C; reflexivity|intros x; rewrite C; reflexivity|exact I].
+Qed.
+
+Lemma eff_refl s : eff s s (thrs s) (tvs s).
+Proof. repeat split. Qed.
+
+Lemma eff_set_task s s1 l f c y : eff s s1 l f -> c < length (tasks s) ->
+  eff s (set_task s1 c y) l (upd f c (tvw y)).
+Proof.
+  intros (A & B & C) L. split; [exact A|]. split; [rewrite set_task_len; exact B|].
+  intros x. rewrite tvs_set_task by (rewrite B; exact L). unfold upd. destruct (Nat.eqb x c); [reflexivity|apply C].
+Qed.
+
+Lemma eff_enter s s1 l f w : eff s s1 l f -> eff s (enter s1 w) l f.
+Proof.
+  intros (A & B & C). destruct (same_enter s1 w) as (V & _ & T). split; [exact A|]. split; [congruence|].
+  intros x. rewrite <- C. destruct V as (_ & _ & _ & _ & _ & _ & _ & _ & _ & _ & V). symmetry. apply (V x).
+Qed.
+
+Lemma eff_set_run s s1 l f t r : eff s s1 l f ->
+  eff s (set_run s1 t r) (set_nth l t (mkThr r (tq (nth t l dflt_thr)))) f.
+Proof. intros (A & B & C). unfold set_run, gthr. rewrite A. repeat split; assumption. Qed.
+
+Lemma eff_set_tq s s1 l f t q : eff s s1 l f ->
+  eff s (set_tq s1 t q) (set_nth l t (mkThr (run (nth t l dflt_thr)) q)) f.
+Proof. intros (A & B & C). unfold set_tq, gthr. rewrite A. repeat split; assumption. Qed.
+
+Definition yield_thr (l : list thr) (f : nat -> tview) (t : nat) : thr :=
+  match tq (nth t l dflt_thr) with
+  | w :: r => mkThr (TRun w) r
+  | [] => mkThr (match kd (f t), pf (f t) with KPlain, PDone => TIdle | KPlain, _ => TRun t | KCoro, _ => TIdle end) []
+  end.
+
+Lemma nth_set_nth_eq {A} (l : list A) t x d : t < length l -> nth t (set_nth l t x) d = x.
+Proof. intros L. apply nth_set_nth_same. exact L. Qed.
+
+Lemma eff_yield s s1 l f t : eff s s1 l f -> t < length l -> eff s (yield s1 t) (set_nth l t (yield_thr l f t)) f.
+Proof.
+  intros E L. pose proof E as (A & B & C). unfold yield, yield_thr, gthr. rewrite A.
+  destruct (tq (nth t l dflt_thr)) as [|w r] eqn:Q.
+  - assert (K : tk (gtask s1 t) = kd (f t)) by (rewrite <- C; reflexivity).
+    assert (P : tpc (gtask s1 t) = pf (f t)) by (rewrite <- C; reflexivity).
+    rewrite K, P.
+    assert (G : forall r0, eff s (set_run s1 t r0) (set_nth l t (mkThr r0 [])) f).
+    { intros r0. pose proof (eff_set_run s s1 l f t r0 E) as G. rewrite Q in G. exact G. }
+    destruct (kd (f t)); [apply G|]. destruct (pf (f t)); apply G.
+  - assert (G : eff s (set_run (set_tq s1 t r) t (TRun w)) (set_nth l t (mkThr (TRun w) r)) f).
+    { pose proof (eff_set_run s _ _ f t (TRun w) (eff_set_tq s s1 l f t r E)) as G.
+      rewrite set_nth_twice, nth_set_nth_eq in G by exact L. exact G. }
+    match goal with |- eff s (match ?p with _ => _ end) _ _ => destruct p end; try exact G.
+    apply eff_enter. exact G.
+Qed.
+
+Lemma yield_thr_vac l f t c : t < length l ->
+  set_nth (set_nth l t (mkThr (TSusp c) (tq (nth t l dflt_thr)))) t
+          (yield_thr (set_nth l t (mkThr (TSusp c) (tq (nth t l dflt_thr)))) f t) = set_nth l t (yield_thr l f t).
+Proof.
+  intros L. rewrite set_nth_twice. unfold yield_thr. rewrite nth_set_nth_eq by exact L. reflexivity.
+Qed.
+
+Lemma lv_yield l n f t c0 : LV l n f -> t < n -> run (nth t l dflt_thr) = TSusp c0 ->
+  LV (set_nth l t (yield_thr l f t)) n f.
+Proof.
+  intros I Lt R. unfold yield_thr. destruct (tq (nth t l dflt_thr)) as [|w r] eqn:Q.
+  - eapply lv_yield_nil; eassumption.
+  - eapply lv_yield_cons; eassumption.
+Qed.
+
+(* the running coroutine c parks / finishes and the thread goes on with its ready queue *)
+Lemma lv_vacate_yield l n f t c v' : LV l n f -> t < n -> run (nth t l dflt_thr) = TRun c ->
+  kd (f c) = KCoro -> kd v' = KCoro -> live (pf v') = false ->
+  LV (set_nth l t (yield_thr l (upd f c v') t)) n (upd f c v').
+Proof.
+  intros I Lt R K Kv Lv. pose proof (l_len _ _ _ I) as Ln.
+  rewrite <- (yield_thr_vac l (upd f c v') t c) by lia.
+  eapply lv_yield; [eapply lv_vacate; eassumption|exact Lt|].
+  rewrite nth_set_nth_eq by lia. reflexivity.
+Qed.
+
+Lemma cwait_coro k p fl : cls (k, p, fl) = CWait -> k = KCoro -> p = PParked.
+Proof. intros C ->. destruct p; cbn in C; try discriminate; reflexivity. Qed.
+
+Lemma handover_linv s t c vh : LInv s -> length (next s) = length (tasks s) -> t < length (tasks s) ->
+  run (gthr s t) = TRun c -> live (tpc (gtask s c)) = true -> c < length (tasks s) ->
+  Inv (mkV (requests s) (queue s) (next s) (dnext s) (err s) (owner s) (gstack s) (gqueue s) (alog s) (glog s)
+           (upd (tvs s) c vh)) ->
+  cls vh = CHold -> queue s <> PNull -> LInv (handover s t c).
+Proof.
+  intros LI L Lt R Lc Lcn I Hh Q. unfold gthr in R.
+  destruct (queue s) as [| |w] eqn:EQ; [contradiction| |].
+  - exfalso. pose proof (i_queue _ I) as RQ. cbn [v_next v_q v_gq] in RQ.
+    destruct (repr_nil_inv _ _ _ _ RQ); [discriminate|discriminate].
+  - set (yc := t_endround (gtask s c) false).
+    destruct (inv_handover _ c w (tvw yc) (KCoro, PCs, false) I) as (Ww & Nwc & _ & _);
+      [cbn [v_tv]; rewrite upd_same; exact Hh|reflexivity|reflexivity|reflexivity|].
+    cbn [v_tv] in Ww. rewrite upd_other in Ww by exact Nwc.
+    assert (Lw : w < length (tasks s)).
+    { apply task_lt. intro Z. unfold tvs, tvw in Ww. rewrite Z in Ww. cbn in Ww. discriminate. }
+    unfold handover. rewrite EQ. cbv zeta.
+    set (s1 := s_mem s (requests s) (gnext s w) (set_nth (next s) w PNull) (dnext s)).
+    set (s2 := s_ghost s1 (Some w) (gstack s1) (tl (gqueue s1)) (alog s1) (glog s1 ++ [w])).
+    set (s3 := set_task s2 c (t_endround (gtask s2 c) false)).
+    assert (E3 : eff s s3 (thrs s) (upd (tvs s) c (tvw yc))).
+    { exact (eff_set_task s2 s2 (thrs s) (tvs s) c _ (eff_refl s2) Lcn). }
+    assert (G3 : gtask s3 w = gtask s w) by (unfold s3; rewrite gtask_set_task_other by exact Nwc; reflexivity).
+    assert (G3c : gtask s3 c = yc) by (unfold s3; rewrite gtask_set_task by exact Lcn; rewrite Nat.eqb_refl; reflexivity).
+    rewrite G3.
+    assert (Kc' : kd (tvw yc) = kd (tvs s c)) by reflexivity.
+    assert (Pc' : pf (tvw yc) = PStep) by reflexivity.
+    destruct (tk (gtask s w)) eqn:Kw.
+    + (* coroutine waiter *)
+      assert (Pw : tpc (gtask s w) = PParked) by (eapply cwait_coro; [exact Ww|exact Kw]).
+      assert (E4 : eff s (set_pc s3 w PCs) (thrs s) (upd (upd (tvs s) c (tvw yc)) w (tvw (t_pc (gtask s3 w) PCs)))).
+      { unfold set_pc. apply eff_set_task; assumption. }
+      assert (G4c : gtask (set_pc s3 w PCs) c = yc).
+      { unfold set_pc. rewrite gtask_set_task_other by auto. exact G3c. }
+      assert (T4 : gthr (set_pc s3 w PCs) t = nth t (thrs s) dflt_thr) by reflexivity.
+      rewrite G4c, T4. unfold yc at 1 2. cbn [t_endround tk crel].
+      assert (Hand : forall x,
+        (tk (gtask s c) = KPlain /\ x = mkThr (TRun w) (tq (nth t (thrs s) dflt_thr)) \/
+         tk (gtask s c) = KCoro /\ x = mkThr (TRun w) (tq (nth t (thrs s) dflt_thr) ++ [c]) \/
+         tk (gtask s c) = KCoro /\ x = mkThr (TRun c) (tq (nth t (thrs s) dflt_thr) ++ [w])) ->
+        LV (set_nth (thrs s) t x) (length (tasks s)) (upd (upd (tvs s) c (tvw yc)) w (tvw (t_pc (gtask s3 w) PCs)))).
+      { intros x X. apply (lv_handover (thrs s) _ (tvs s) t c w (tvw yc) _ x LI Lt R Lc Kw); try reflexivity; try assumption.
+        - unfold tvs, tvw, pf. cbn [fst snd]. rewrite Pw. reflexivity.
+        - unfold tvw, kd, t_pc. cbn [fst snd tk]. rewrite G3. exact Kw. }
+      pose proof (l_len _ _ _ LI) as Ln.
+      destruct (tk (gtask s c)) eqn:Kc; [destruct (crel (gtask s c)) eqn:Rl|].
+      * eapply linv_eff; [apply eff_set_tq; exact E4|]. rewrite R. apply Hand. right. right. auto.
+      * eapply linv_eff; [apply eff_set_tq; exact E4|]. rewrite R. apply Hand. right. right. auto.
+      * eapply linv_eff; [apply eff_enter; apply eff_set_run; apply eff_set_tq; exact E4|].
+        rewrite set_nth_twice, nth_set_nth_eq by lia. cbn [tq]. apply Hand. right. left. auto.
+      * eapply linv_eff; [apply eff_enter; apply eff_set_run; exact E4|]. apply Hand. left. auto.
+    + (* blocking waiter: flag only *)
+      eapply linv_eff; [apply eff_set_task; [exact E3|exact Lw]|].
+      apply lv_ext with (f := upd (tvs s) c (tvw yc)).
+      * intros x. unfold upd at 1. destruct (Nat.eqb_spec x w) as [->|N]; [|reflexivity].
+        rewrite upd_other by exact Nwc. reflexivity.
+      * intros x. unfold upd at 1. destruct (Nat.eqb_spec x w) as [->|N]; [|reflexivity].
+        rewrite upd_other by exact Nwc. reflexivity.
+      * apply (lv_pc (thrs s) _ (tvs s) t c (tvw yc) LI Lt R Lc); reflexivity.
+Qed.
+
+Lemma eff_conv s s1 : thrs s1 = thrs s -> tasks s1 = tasks s -> eff s s1 (thrs s) (tvs s).
+Proof. intros A B. unfold eff, tvs, gtask. rewrite A, B. repeat split. Qed.
+
+Lemma enabled_lt s t : enabled s t = true -> t < length (thrs s).
+Proof.
+  unfold enabled. intros E. apply andb_true_iff in E. destruct E as [_ E].
+  destruct (nth_error (thrs s) t) eqn:N; [|discriminate]. apply nth_error_Some. congruence.
+Qed.
+
+Lemma build_queue_frame s stop : thrs (build_queue s stop) = thrs s /\ tasks (build_queue s stop) = tasks s.
+Proof. unfold build_queue. destruct (bq_walk _ _ _ _ _ _) as [[nx dn] q]. split; reflexivity. Qed.
+
+Ltac pc_case LI Lt R P Lc :=
+  eapply linv_eff;
+  [ first [ apply eff_enter; apply eff_set_task; [apply eff_conv; first [reflexivity|apply build_queue_frame] | exact Lc]
+          | apply eff_set_task; [apply eff_conv; first [reflexivity|apply build_queue_frame] | exact Lc] ]
+  | apply (lv_pc _ _ _ _ _ _ LI Lt R);
+    [unfold tvs, tvw, pf; cbn [fst snd]; rewrite P; reflexivity | reflexivity | reflexivity] ].
+
+Lemma step_linv s t : SInv s -> LInv s -> enabled s t = true -> LInv (fst (fst (tstep s t))).
+Proof.
+  intros SI LI En. pose proof SI as [L I]. pose proof (l_len _ _ _ LI) as Ln.
+  assert (Lt : t < length (tasks s)) by (rewrite <- Ln; apply enabled_lt; exact En).
+  unfold tstep. destruct (run (gthr s t)) as [|c|c] eqn:R; cbn [fst].
+  - exact LI.
+  - unfold gthr in R.
+    destruct (tpc (gtask s c)) eqn:P; cbn [fst];
+      try (assert (Lc : c < length (tasks s)) by (apply task_lt; rewrite P; discriminate)).
+    + (* PStep *)
+      destruct (prog (gtask s c)) as [|[a r] p]; cbn [fst].
+      * destruct (tk (gtask s c)) eqn:K.
+        -- eapply linv_eff; [apply eff_yield; [unfold set_pc; apply eff_set_task; [apply eff_refl|exact Lc]|lia]|].
+           apply lv_vacate_yield; try assumption; reflexivity.
+        -- assert (c = t) by (eapply running_plain_self; eassumption). subst c.
+           eapply linv_eff; [apply eff_set_run; unfold set_pc; apply eff_set_task; [apply eff_refl|exact Lc]|].
+           apply lv_plain_done; try assumption; reflexivity.
+      * pc_case LI Lt R P Lc.
+    + (* PTry *)
+      destruct (requests s) eqn:Rq; cbn [fst].
+      * unfold set_pc. pc_case LI Lt R P Lc.
+      * destruct (cacq (gtask s c)); [unfold set_pc|]; pc_case LI Lt R P Lc.
+      * destruct (cacq (gtask s c)); [unfold set_pc|]; pc_case LI Lt R P Lc.
+    + (* PSub *)
+      cbv zeta.
+      assert (Park : forall s1, thrs s1 = thrs s -> tasks s1 = tasks s -> tk (gtask s c) = KCoro ->
+                LInv (set_run (set_pc s1 c PParked) t (TSusp c))).
+      { intros s1 A B K. eapply (linv_eff s); [apply eff_set_run; unfold set_pc; apply eff_set_task; [apply eff_conv; assumption|exact Lc]|].
+        apply lv_vacate; try assumption; try reflexivity. unfold tvw, kd, t_pc. cbn [fst snd tk].
+        unfold gtask. rewrite B. exact K. }
+      destruct (requests s) eqn:Rq; cbn [fst].
+      * unfold set_pc. pc_case LI Lt R P Lc.
+      * destruct (tk (gtask s c)) eqn:K; cbn [fst]; [apply Park; auto|pc_case LI Lt R P Lc].
+      * destruct (tk (gtask s c)) eqn:K; cbn [fst]; [apply Park; auto|pc_case LI Lt R P Lc].
+    + unfold set_pc. pc_case LI Lt R P Lc.
+    + unfold set_pc. pc_case LI Lt R P Lc.
+    + unfold set_pc, build_queue. destruct (bq_walk _ _ _ _ _ _) as [[nx dn] q]. pc_case LI Lt R P Lc.
+    + exact LI.
+    + pc_case LI Lt R P Lc.
+    + pc_case LI Lt R P Lc.
+    + (* PUnlock *)
+      assert (Hc : cls (v_tv (vw s) c) = CHold) by (cbn [vw v_tv]; unfold tvs, tvw; rewrite P; reflexivity).
+      assert (Hand : queue s <> PNull -> LInv (handover s t c)).
+      { intros Q. apply handover_linv with (vh := tvs s c); try assumption.
+        - rewrite P. reflexivity.
+        - eapply inv_veq; [|exact I]. veq_fields. intros x. symmetry. apply upd_id. }
+      destruct (queue s) eqn:Q; cbn [fst].
+      * destruct (requests s) eqn:Rq; cbn [fst]; [unfold set_pc| |unfold set_pc]; pc_case LI Lt R P Lc.
+      * apply Hand. discriminate.
+      * apply Hand. discriminate.
+    + (* PBqU *)
+      assert (Cc : cls (v_tv (vw s) c) = CBqU) by (cbn [vw v_tv]; unfold tvs, tvw; rewrite P; reflexivity).
+      destruct (inv_bq (vw s) c PDoor (length (tasks s) + 2) (tk (gtask s c), PUnlock, flag (gtask s c)) I)
+        as (nx & q' & E & I2 & NE & Lnx).
+      { right. split; [exact Cc|reflexivity]. }
+      { reflexivity. }
+      { cbn [vw v_next]. lia. }
+      cbn [vw v_req v_q v_next v_dn v_err v_own v_gs v_gq v_al v_gl v_tv] in E, I2, NE, Lnx.
+      rewrite (build_queue_eq s PDoor nx q' E).
+      apply handover_linv with (vh := (tk (gtask s c), PUnlock, flag (gtask s c))).
+      * exact LI.
+      * cbn. congruence.
+      * exact Lt.
+      * exact R.
+      * change (live (tpc (gtask s c)) = true). rewrite P. reflexivity.
+      * exact Lc.
+      * exact I2.
+      * reflexivity.
+      * cbn. destruct NE as (w & ->); [|discriminate]. apply (i_bqu _ I c Cc).
+    + exact LI.
+  - (* tail of await_suspend *)
+    unfold gthr in R.
+    eapply linv_eff; [apply eff_yield; [apply eff_refl|lia]|]. eapply lv_yield; eassumption.
+Qed.
